@@ -75,4 +75,16 @@ CHECKS = {
         stages=[rnd("ring", "c11", 250000, 5000000, essential=["wrapped_twice", "multi_reclaim", "snapshot_after_wrap", "semaphore", "near_capacity_chunk", "read_after_overwrite", "full_S_chunk", "peek"])],
         assumptions=["single writer/reader thread", "snapshots need the private /dev/shm namespace (qb_rb_create_from_file uses a fixed name)"],
     ),
+    "C19": dict(
+        title="growable array: stable, disjoint, zero-initialised elements; concurrent index/grow",
+        level="exploration",
+        design_ref="DESIGN.md section 4, C19",
+        technique="model-based property testing (sequential) + randomised schedule exploration of 2-3 threads at load/store granularity with ASan (concurrent)",
+        level_text="sequential: generated index/grow sequences over the full int32 range vs. an index->(address, contents) model with an interval map for overlap; concurrent: the same guarantees "
+                   "for 2-3 threads whose interleaving is owned by a cooperative scheduler with a yield point at every compiler-instrumented access in array.c and at the grow lock",
+        level_note="trusted: the model; concurrent part explores sequentially-consistent interleavings only (no hardware reordering), schedules are sampled, not enumerated",
+        stages=[rnd("seq", "c19", 500000, 10000000, essential=["table_realloc_then_recheck", "autogrow", "range_error", "bin_boundary", "top_of_range", "negative_index", "grow_rejected", "new_bin_cb"]),
+                rnd("conc", "c19c", 60000, 1500000, variant="sched", essential=["switch_inside_index", "switch_inside_grow", "table_realloc", "three_threads", "autogrow"])],
+        assumptions=["concurrent stage: interleavings are sequentially consistent at the granularity of individual accesses; weak-memory effects are invisible"],
+    ),
 }
